@@ -32,6 +32,14 @@ def ob_new(W, part):
     return SC.ob_new(W, part)
 
 
+def ob_vec_tail(W):
+    return SC.ob_vec_tail(W)
+
+
+def ob_ltf_tail(W, sched):
+    return SC.ob_ltf_tail(W, sched)
+
+
 def ob_whole_plan(W, sched, N, Jdes, Lmin, fs_value=None):
     return SC.ob_whole_plan(W, sched, N, Jdes, Lmin, fs_value)
 
@@ -65,6 +73,7 @@ def obligations(tier):
         # after an earlier plan for another record in the same process (module-level state must not leak into this one)
         split(obs, "%s/step-after-prior-plan" % sched, "ob_ltf", {"sched": sched, "part": "step", "prior": True}, GROUPS[1:2], timeout=to, fork=True, max_paths=32)
         split(obs, "%s/seg-N%d-after-prior-plan" % (sched, b), "ob_ltf", {"sched": sched, "part": "seg", "bound": b, "prior": True}, [GROUPS[1], GROUPS[4]], timeout=60 if tier == "quick" else 900, weight=10, fork=True, max_paths=32)
+        obs.append({"name": "%s/tail" % sched, "fn": "ob_ltf_tail", "params": {"sched": sched}, "fork": True, "max_paths": 200, "timeout": to, "weight": 6, "limit": 600, "only": ["C02/*"]})
     split(obs, "vec/step", "ob_vec", {"part": "step"}, GROUPS, timeout=to, weight=5)
     # the same step with the walker's branches explored path by path (forking) instead of merged
     split(obs, "vec/step-forked", "ob_vec", {"part": "step", "fork_ifs": True}, GROUPS[1:], timeout=to, weight=5, fork=True, max_paths=32)
